@@ -3,7 +3,10 @@
 //! Retry budgets limit the total number of retries across all requests,
 //! preventing cascading failures when a downstream service is struggling.
 
+#[cfg(not(feature = "verif-hooks"))]
 use std::sync::atomic::{AtomicU64, Ordering};
+#[cfg(feature = "verif-hooks")]
+use tower_resilience_core::verif::atomic::{AtomicU64, Ordering};
 use std::sync::Arc;
 use tower_resilience_core::aimd::{AimdConfig, AimdController};
 
